@@ -49,6 +49,10 @@ VARIANTS = {
     # the repository's other build system: ./autogen.sh && ./configure --enable-thread-safe
     # (defines COAP_THREAD_SAFE 1 and COAP_THREAD_RECURSIVE_CHECK 1) on a copy of the tree
     "tsan-at": ("gcc", "-O1 -g -fno-omit-frame-pointer -fsanitize=thread -DNDEBUG", ["autotools"]),
+    # line coverage of the library under the closed-world checks (tools/coverage.py): which
+    # code the workloads reach at all; not used by any verdict
+    "cov": ("gcc", "-O0 -g --coverage -DNDEBUG %s" % COMMON_DEFS,
+            ["-DWITH_EPOLL=OFF", "-DENABLE_THREAD_SAFE=OFF"]),
     # assertions on (no NDEBUG), no sanitizer: libcoap's own lock-ownership asserts
     "lockchk": ("gcc", "-O1 -g -fno-omit-frame-pointer", []),
 }
@@ -209,5 +213,6 @@ WORLD_WRAPS = ["coap_ticks", "coap_socket_bind_udp", "coap_socket_connect_udp", 
 
 
 def ensure_world(variant="asan"):
+    variant = os.environ.get("VERIF_WORLD_VARIANT", variant)
     return ensure_harness(variant, "world", ["world.c", "wraps.c", "persist.c"], wraps=WORLD_WRAPS,
                           extra_ldflags=["-rdynamic"])
